@@ -13,12 +13,15 @@ def jobs(tier):
         Job("graph-n3", M, "h_graph", dict(C16_GN=3), shards=16, timeout=t),
         Job("code-k4-noexc", M, "h_code", dict(C16_KOPS=4, C16_NEXC=0), shards=61, timeout=t),
         Job("code-k3-exc", M, "h_code", dict(C16_KOPS=3, C16_NEXC=1), shards=61, timeout=t),
+        Job("real-programs", M, "h_real", dict(C16_NSTMT=8, C16_NWRAP=4), shards=61, timeout=t,
+            note="real CPython output for generated programs (two statements x wrapper x loop x tail)"),
     ]
   return [
       Job("graph-n4", M, "h_graph", dict(C16_GN=4), shards=251, timeout=t),
       Job("code-k5-noexc", M, "h_code", dict(C16_KOPS=5, C16_NEXC=0), shards=509, timeout=t),
       Job("code-k4-exc", M, "h_code", dict(C16_KOPS=4, C16_NEXC=1), shards=509, timeout=t),
       Job("code-k3-2exc", M, "h_code", dict(C16_KOPS=3, C16_NEXC=2), shards=127, timeout=t),
+      Job("real-programs", M, "h_real", dict(C16_NSTMT=14, C16_NWRAP=6), shards=251, timeout=t),
   ]
 
 
@@ -43,13 +46,17 @@ def meta(tier):
           "consecutive instructions whose id is their first index; no instruction in two blocks; every target of a "
           "reachable jump starts a block; the order starts at the entry, lists no block twice, lists every block "
           "reachable at INSTRUCTION level from the entry, and places a predecessor before every non-entry block. "
-          "Structural inputs: solver-certified exhaustive walk of a superset of compiler output."),
+          "real-programs: function bodies generated from selectors (two statements out of 14 kinds incl. return/raise/"
+          "continue/break/if/for/while/with/comprehension, one of 6 wrappers incl. try/except, try/finally, "
+          "try/except/else/finally, with, nested try; optionally inside a loop) are compiled by CPython (set-up, "
+          "untraced) and every code object goes through the same real functions and the same block-graph checks plus "
+          "link and jump-resolution checks. Structural inputs: solver-certified exhaustive walk."),
       "functions_encoded": [
           "pytype/pyc/opcodes.py: build_opcodes, _make_opcodes, _add_setup_except, _add_exception_block, _get_exception_bitmask, _make_opcode_list, _should_elide_opcode, _add_jump_targets, _add_async_for_jump_back_targets",
           "pytype/blocks/blocks.py: add_pop_block_targets, _split_bytecode, _remove_jump_back_block, _remove_jmp_to_get_anext_and_merge, compute_order, Block",
           "pytype/typegraph/cfg_utils.py: compute_predecessors, order_nodes"],
       "bounds": {j.name: j.params for j in jobs(tier)},
-      "outside": ["SEND / GET_ANEXT / END_ASYNC_FOR surgery (async, generators)", "real compiler output and the standard-library corpus",
+      "outside": ["SEND / GET_ANEXT / END_ASYNC_FOR surgery (async, generators)", "compiler output beyond the generated program grammar; the standard-library corpus",
                   "pycnite's decoding of code objects", "process_blocks / constant folding"],
       "rule": "one record per completed path keyed by the adjacency bits / the instruction list and exception table; non-trivial: graph = at least 2 edges, code = has a jump or an exception entry",
       "assumptions": [
